@@ -27,10 +27,10 @@ type effRoot struct {
 
 // EffSummary is the effect summary of one function.
 type EffSummary struct {
-	Writes     map[int]bool            // parameter index whose structure is written
-	AliasInto  map[[2]int]bool         // [from, into]: a pointer reachable from `from` is stored into the structure of `into`
-	RetAlias   map[int]bool            // a pointer into the parameter's structure is returned
-	FieldReads map[int]map[string]bool // fields of the parameter's struct that are read (FieldAddr), transitively through callees
+	Writes      map[int]bool            // parameter index whose structure is written
+	AliasInto   map[[2]int]bool         // [from, into]: a pointer reachable from `from` is stored into the structure of `into`
+	RetAlias    map[int]bool            // a pointer into the parameter's structure is returned
+	FieldReads  map[int]map[string]bool // fields of the parameter's struct that are read (FieldAddr), transitively through callees
 	FieldWrites map[int]map[string]bool
 }
 
@@ -468,10 +468,10 @@ func SetAlgebraEffects(p *core.Program, r *core.Report) {
 
 	// C11-d operand field coverage of the binary PortSet operations
 	want := map[string][2][]string{ // method -> {fields of receiver, fields of operand}
-		"Equal":       {{"Ports", "NamedPorts", "ExcludedNamedPorts"}, {"Ports", "NamedPorts", "ExcludedNamedPorts"}},
-		"Union":       {{"Ports", "NamedPorts", "ExcludedNamedPorts"}, {"Ports", "NamedPorts", "ExcludedNamedPorts"}},
-		"ContainedIn": {{"Ports", "NamedPorts"}, {"Ports", "NamedPorts"}},
-		"subtract":    {{"Ports", "NamedPorts"}, {"Ports", "NamedPorts"}},
+		"Equal":        {{"Ports", "NamedPorts", "ExcludedNamedPorts"}, {"Ports", "NamedPorts", "ExcludedNamedPorts"}},
+		"Union":        {{"Ports", "NamedPorts", "ExcludedNamedPorts"}, {"Ports", "NamedPorts", "ExcludedNamedPorts"}},
+		"ContainedIn":  {{"Ports", "NamedPorts"}, {"Ports", "NamedPorts"}},
+		"subtract":     {{"Ports", "NamedPorts"}, {"Ports", "NamedPorts"}},
 		"Intersection": {{"Ports", "NamedPorts"}, {"Ports", "NamedPorts"}},
 	}
 	var names []string
